@@ -100,11 +100,20 @@ func checkHostile(c hostCase) *verdict {
 		if err != nil || !ref.Equal(r, ref.SimpleV("PONG")) {
 			return &verdict{"proxy-wedged", fmt.Sprintf("%s: a fresh connection's PING was answered %s (%v)", where, r, err)}
 		}
-		r, err = cl.Do(10*time.Second, "SET", key1, "ok")
-		if err != nil || r.IsErr() {
-			return &verdict{"healthy-backend-unusable", fmt.Sprintf("%s: SET on the untouched backend answered %s (%v)", where, r, err)}
+		// generated CLUSTER NODES text can be well-formed and simply untrue (slots owned by 127.0.0.1:7000): the proxy rightly
+		// follows it until the next refresh (50 ms here) reads the genuine text again. That is a lying backend, not a malformed
+		// reply, so the untouched backend must become usable again within the deadline rather than at the first attempt.
+		deadline := time.Now().Add(10 * time.Second)
+		for {
+			r, err = cl.Do(10*time.Second, "SET", key1, "ok")
+			if err == nil && !r.IsErr() {
+				return nil
+			}
+			if err != nil || time.Now().After(deadline) {
+				return &verdict{"healthy-backend-unusable", fmt.Sprintf("%s: SET on the untouched backend answered %s (%v) for 10s", where, r, err)}
+			}
+			time.Sleep(20 * time.Millisecond)
 		}
-		return nil
 	}
 	for i, s := range c.Steps {
 		where := fmt.Sprintf("after step %d (%s/%s, %d bytes)", i, s.Who, s.Class, len(s.bytes()))
